@@ -20,6 +20,9 @@
 //   /ai#3    rArrayI  0..100                  default 3 (all elements, written [3x3])
 //   /af#3    rArrayF  -0.5..0.75              default 0.25
 //   /at#2    rArrayT                          default false
+//   /al#8    rArrayI  0..100                  default 0 (written [8x0])
+//   /fx_on   rToggle  default false
+//   /fx/     rRecurp  (allocated by fx_on) enabled by fx_on:  gain rParamI 0..10 default 3,  voice#2/ rRecurs: vol rParamI 0..127 default 64
 //   /sub_on  rToggle                          default true
 //   /sub/    rRecur   enabled by sub_on:   si rParamI 0..50 default 7,  sf rParamF -4..4 default 1.5, st rToggle default false, sa#2 rArrayI 0..100 default [4 4]
 //   /subs#2/ rRecurs  (same Sub ports)
@@ -32,16 +35,19 @@
 
 namespace app1 {
 struct Sub { int si = 7; float sf = 1.5f; bool st = false; char sa[2] = {4, 4}; static const rtosc::Ports ports; };
+struct Voice { int vol = 64; static const rtosc::Ports ports; };
+struct Fx { int gain = 3; Voice voice[2]; static const rtosc::Ports ports; };
 struct App {
     char pc = 64; int pi = 5; int pn = 0; float pf = 0.5f; float pg = 1.0f; bool pt = false; int po = 1; char ps[8];
-    int preset = 0; int dep = 10; int mode = 0; int dep2 = 1; int chain = 0; bool tg = false; int dep3 = 5; char ai[3]; float af[3]; bool at[2];
+    int preset = 0; int dep = 10; int mode = 0; int dep2 = 1; int chain = 0; bool tg = false; int dep3 = 5; char al[8]; bool fx_on = false; Fx *fx = nullptr; char ai[3]; float af[3]; bool at[2];
     bool sub_on = true; Sub sub; Sub subs[2]; bool palloc = false; Sub *psub = nullptr;
-    App() { strcpy(ps, "abc"); for (int i = 0; i < 3; ++i) { ai[i] = 3; af[i] = 0.25f; } at[0] = at[1] = false; }
-    ~App() { delete psub; }
+    App() { strcpy(ps, "abc"); for (int i = 0; i < 3; ++i) { ai[i] = 3; af[i] = 0.25f; } at[0] = at[1] = false; memset(al, 0, sizeof al); }
+    ~App() { delete psub; delete fx; }
     App(const App &) = delete;
     void preset_changed() { static const int d[3] = {10, 20, 30}; dep = d[preset < 0 ? 0 : preset > 2 ? 2 : preset]; mode = 0; mode_changed(); tg_changed(); }   // a preset also selects mode 0
     void tg_changed() { static const int d3[3] = {5, 6, 7}; dep3 = d3[preset < 0 ? 0 : preset > 2 ? 2 : preset]; }                                          // the toggle re-initialises its dependant
     void mode_changed() { static const int d2[3] = {1, 2, 3}; dep2 = d2[preset < 0 ? 0 : preset > 2 ? 2 : preset]; chain = 0; }                          // a mode re-initialises its two dependants
+    void fx_changed() { if (fx_on && !fx) fx = new Fx; if (!fx_on && fx) { delete fx; fx = nullptr; } }
     void palloc_changed() { if (palloc && !psub) psub = new Sub; if (!palloc && psub) { delete psub; psub = nullptr; } }
     static const rtosc::Ports ports;
 };
@@ -55,6 +61,12 @@ inline const rtosc::Ports Sub::ports = {
 };
 #undef rObject
 
+#define rObject Voice
+inline const rtosc::Ports Voice::ports = { rParamI(vol, rLinear(0, 127), rDefault(64), "voice volume") };
+#undef rObject
+#define rObject Fx
+inline const rtosc::Ports Fx::ports = { rParamI(gain, rLinear(0, 10), rDefault(3), "fx gain"), rRecurs(voice, 2, "voices: an enumerated sub-tree BELOW a sub-tree that can be disabled") };
+#undef rObject
 #define rObject App
 inline const rtosc::Ports App::ports = {
     rParam(pc, rDefault('@'), "char parameter"),      // a char default: the runtime value of a ::c port is a char ('@' = 64)
@@ -87,6 +99,13 @@ inline const rtosc::Ports App::ports = {
     rArrayI(ai, 3, rLinear(0, 100), rDefault([3x3]), "int array"),                 // a default in repeat notation
     rArrayF(af, 3, rLinear(-0.5, 0.75), rDefault([0.25 0.25 0.25]), "float array"),   // bounds that are not whole numbers
     rArrayT(at, 2, rDefault([false false]), "toggle array"),
+    rArrayI(al, 8, rLinear(0, 100), rDefault([8x0]), "long int array: its saved form can contain compressed runs"),
+#undef rChangeCb
+#define rChangeCb obj->fx_changed();
+    rToggle(fx_on, rDefault(false), "allocates fx"),
+#undef rChangeCb
+#define rChangeCb
+    rRecurp(fx, rEnabledBy(fx_on), "pointer sub-tree with an enumerated sub-tree inside"),
     rToggle(sub_on, rDefault(true), "enables sub"),
     rRecur(sub, rEnabledBy(sub_on), "member sub-tree"),
     rRecurs(subs, 2, "enumerated sub-trees"),
